@@ -1093,7 +1093,7 @@ func dumpDB(db *qdb.DB, out *dumpOut) []dumpRec {
 		}
 		s := sha256.Sum256(v)
 		vals[uint64(k)] = append([]byte{}, v...)
-		if uint64(k) == probeKey { // left by an earlier (crashed) dump child; checked separately
+		if uint64(k) == probeKey || uint64(k) == probeKey+1 { // written by this or an earlier (crashed) dump child; checked separately
 			if !bytes.Equal(v, probeValue) {
 				out.ProbeFailed = "probe key holds " + describe(v)
 			}
@@ -1131,8 +1131,15 @@ func childDump(args []string) {
 	out.Recs = dumpDB(db, &out)
 	out.Count = len(out.Recs)
 	save("dumped")
+	// the session that did the recovery writes as well (it is the one that has just refused or replayed a log): what it
+	// syncs must be there after its Close
+	db.Put(probeKey+1, probeValue)
+	db.Sync()
 	db.Close()
 	qdb.NewDBExt(&db, &qdb.NewDBOpts{Dir: dir, LoadData: !load})
+	if got := db.Get(probeKey + 1); !bytes.Equal(got, probeValue) {
+		out.ProbeFailed = "a key written and synced by the recovering session itself is not there after its Close and a reopen: " + describe(got)
+	}
 	second := dumpDB(db, &out)
 	a, _ := json.Marshal(out.Recs)
 	b, _ := json.Marshal(second)
